@@ -59,6 +59,7 @@ LIST_API = {
     "__reversed__": dict(params=[], kind="read"),
     "__contains__": dict(params=["key"], kind="read"),       # inherited: collections.abc.Sequence.__contains__
     "index": dict(params=["value"], kind="read"),            # inherited: Sequence.index, one-argument form
+    "count": dict(params=["value"], kind="read"),            # inherited: Sequence.count (generator + sum, [L-GENSUM])
     "__call__": dict(params=[], kind="read"),
     "__eq__": dict(params=["other"], kind="read"),
     "__lt__": dict(params=["other"], kind="read"),
@@ -69,7 +70,7 @@ LIST_API = {
     "__str__": dict(params=[], kind="read"),
 }
 # inherited mixins with loops / generator expressions are handled by props.mixins (invariants / bounded)
-LOOPING_MIXINS = {"list": ["index", "count"]}      # index: only its one-argument form is verified
+LOOPING_MIXINS = {"list": ["index"]}      # index: only its one-argument form is verified (count, __contains__: proved)
 
 
 def api_of(kind):
@@ -189,6 +190,8 @@ class Expect:
                 self._from(T["contains"], [a["key"]])
             elif meth == "index":
                 self._from(T["index"], [a["value"]])
+            elif meth == "count":
+                self._from(T["count"], [a["value"]])
             elif meth == "__call__":
                 self.result = lambda v: v
             elif meth == "__eq__":
